@@ -6,6 +6,7 @@ import (
 	"fmt"
 	"log/slog"
 	"runtime/debug"
+	"sync"
 	"time"
 
 	"github.com/DataDog/gostackparse"
@@ -35,6 +36,12 @@ type process struct {
 	mbuffer  []Envelope
 	// set once cleanup ran, the process must not be started again.
 	terminated bool
+
+	// Every Stop / Poison request addressed to this process waits for it to be
+	// stopped, whether or not its pill is the one that stops it.
+	stopmu  sync.Mutex
+	stopped bool
+	waiters []context.CancelFunc
 }
 
 func newProcess(e *Engine, opts Opts) *process {
@@ -202,6 +209,7 @@ func (p *process) cleanup(cancel context.CancelFunc) {
 	if cancel != nil {
 		defer cancel()
 	}
+	defer p.releaseWaiters()
 	p.terminated = true
 
 	if p.context.parentCtx != nil {
@@ -225,7 +233,37 @@ func (p *process) cleanup(cancel context.CancelFunc) {
 
 func (p *process) PID() *PID { return p.pid }
 func (p *process) Send(_ *PID, msg any, sender *PID) {
+	if pill, ok := msg.(poisonPill); ok && !p.awaitStop(pill.cancel) {
+		return
+	}
 	p.inbox.Send(Envelope{Msg: msg, Sender: sender})
+}
+
+// awaitStop registers the cancel func of a stop request, so that it is called
+// once the process is stopped even if its pill never gets processed (an earlier
+// pill, or the max restarts, stopped the process first). It reports false, after
+// calling cancel, if the process is stopped already.
+func (p *process) awaitStop(cancel context.CancelFunc) bool {
+	p.stopmu.Lock()
+	if p.stopped {
+		p.stopmu.Unlock()
+		cancel()
+		return false
+	}
+	p.waiters = append(p.waiters, cancel)
+	p.stopmu.Unlock()
+	return true
+}
+
+func (p *process) releaseWaiters() {
+	p.stopmu.Lock()
+	p.stopped = true
+	waiters := p.waiters
+	p.waiters = nil
+	p.stopmu.Unlock()
+	for _, cancel := range waiters {
+		cancel()
+	}
 }
 func (p *process) Shutdown() {
 	p.cleanup(nil)
